@@ -1,12 +1,14 @@
 from checks import finite
+from checks.e3meta import run_e3meta
+from checks.e3num import run_e3num
 from checks.generic import run_components
 
-ASSUME = ["A-FLOAT", "C99 naming scheme (f suffix, c prefix) as oracle for math functions; float kernels may call the double sibling",
+ASSUME = ["E3 numeric (kernel executed on pseudo-random affine simplex data vs an independent UFL/basix reference) is bounded: corpus forms, fixed seeds, rtol 1e-9", "A-FLOAT", "C99 naming scheme (f suffix, c prefix) as oracle for math functions; float kernels may call the double sibling",
           "UFL rejects ordering/real-only functions of complex arguments (so (real-only function, complex argument) pairs are outside the quantifier)",
           "basis functions and geometry are real: conj acts only on coefficients/constants/literals (factorization contracts)",
           "numeric agreement of the four kernels and UFL's complex_mode lowering are not decided"]
 
 
 def run(tier, seed):
-    return run_components("C09", tier, seed, ["e1", finite.c09_tables, finite.c09_complex_switch, "e3desc"], ASSUME,
+    return run_components("C09", tier, seed, ["e1", finite.c09_tables, finite.c09_complex_switch, "e2", "e3desc", run_e3num, run_e3meta], ASSUME,
                           ["runtime/descriptors.py"])
